@@ -40,8 +40,25 @@ def lines_of(objs):
     return "\n".join(json.dumps(x, separators=(",", ":")) for x in objs) + "\n"
 
 
+class Crashed(Exception):
+    """the harness process died on a signal (abort, stack overflow ...) or never finished while it was running the code
+    under test: that is a finding about the tree, not a tool error (panics are caught inside the harness)"""
+
+
+def run_harness(binpath, args, stdin_data=None, timeout=1800):
+    try:
+        p = run_bin(binpath, args, stdin_data=stdin_data, timeout=timeout)
+    except vlib.ToolError as e:
+        if "timed out" in str(e):
+            raise Crashed("harness %s did not finish within %d s (a handler hangs?)" % (" ".join(args[:1]), timeout))
+        raise
+    if p.returncode < 0:
+        raise Crashed("harness %s was killed by signal %d while calling the handlers: %s" % (args[0], -p.returncode, p.stderr[-400:]))
+    return p
+
+
 def replay_vectors(ctx, binpath, scratch, header, vectors, label, threads=8, data=None):
-    p = run_bin(binpath, ["replay", scratch, str(threads)], stdin_data=data or (lines_of(header) + lines_of(vectors)), timeout=1800)
+    p = run_harness(binpath, ["replay", scratch, str(threads)], stdin_data=data or (lines_of(header) + lines_of(vectors)), timeout=1800)
     res = [x for x in parse_jsonl(p.stdout) if x.get("summary")]
     if p.returncode != 0 or not res:
         raise vlib.ToolError("staticfs replay failed rc=%s: %s" % (p.returncode, p.stderr[-2000:]))
@@ -109,6 +126,13 @@ def run(tier, replay):
     os.makedirs(scratch, exist_ok=True)
     try:
         return _run(ctx, thorough, binpath, tokio_bin, scratch, replay)
+    except Crashed as e:
+        ctx.cov["distinct_nontrivial"] = max(2, ctx.cov["distinct_nontrivial"])
+        ctx.cov["evaluations"] = max(1, ctx.cov["evaluations"])
+        if not ctx.cov["samples"]:
+            ctx.sample({"crash": str(e)})
+        ctx.violation(str(e), {"kind": "staticfs-crash", "what": str(e)})
+        return ctx.finish()
     finally:
         shutil.rmtree(scratch, ignore_errors=True)
 
@@ -134,7 +158,7 @@ def _replay(ctx, binpath, tokio_bin, scratch, replay):
             f.write(lines_of(case["worlds"]))
         reqs = [{k: r[k] for k in ("w", "h", "route", "uri")} for r in case["rejected"]]
         bp = tokio_bin if case.get("runtime") == "tokio" else binpath
-        p = run_bin(bp, ["rerun", scratch, wpath], stdin_data=lines_of(reqs), timeout=600)
+        p = run_harness(bp, ["rerun", scratch, wpath], stdin_data=lines_of(reqs), timeout=600)
         recs = parse_jsonl(p.stdout)
         if p.returncode != 0 or len(recs) != len(reqs):
             raise vlib.ToolError("staticfs rerun failed rc=%s: %s" % (p.returncode, p.stderr[-1500:]))
@@ -183,6 +207,17 @@ def _run(ctx, thorough, binpath, tokio_bin, scratch, replay):
         if r.violation != "invariant" or r.violated_name != inv:
             raise vlib.ToolError("model lost sensitivity: Dev={%s} no longer violates %s (got %s %s)" % (dev, inv, r.violation, r.violated_name))
 
+    # (the deviations that only the world of names refutes are run in the thorough tier)
+    sweep_devs = []
+    if thorough:
+        sweep_devs = [("HexLowerOnly", "SweepPositive"), ("JoinAbsolute", "SweepConfined"), ("StripAllPrefix", "SweepPrefix"),
+                      ("ExtFirstDot", "SweepPositive"), ("TrimNames", "SweepPositive")]
+    for dev, inv in sweep_devs:
+        r = run_tlc("MC_StaticFs.tla", "Sweep_StaticFs_dev_%s.cfg" % dev, D, workers=2, timeout=600, work_id="c06")
+        ctx.add_tlc("sensitivity (world of names): Dev={%s} must violate %s" % (dev, inv), r)
+        if r.violation != "invariant" or r.violated_name != inv:
+            raise vlib.ToolError("model lost sensitivity: Dev={%s} no longer violates %s (got %s %s)" % (dev, inv, r.violation, r.violated_name))
+
     # ---- 2. vectors from TLC replayed on the real handlers --------------------------------------------------
     g = run_tlc("MC_StaticFs.tla", "Gen_StaticFs_worlds.cfg", D, workers=1, timeout=300, work_id="c06")
     header = [x for x in g.prints if isinstance(x, dict) and ("world" in x or "routes" in x)]
@@ -227,6 +262,26 @@ def _run(ctx, thorough, binpath, tokio_bin, scratch, replay):
             account(ctx, s, label + " (tokio handlers)", cfg)
         del vectors, g, data
 
+    # ---- 2b. the world of names (W4): every escape %00..%FF in every hex case, Unicode classes in names, names that are
+    # only an extension / have several dots, directories named like the route prefixes, absolute components, files of
+    # boundary sizes up to several MiB.  One TLC run model-checks the sweep and prints its vectors.
+    g = run_tlc("MC_StaticFs.tla", "Sweep_StaticFs.cfg", D, workers=8, timeout=900, work_id="c06")
+    ctx.add_tlc("handler model, Dev={}: sweep of the world of names (model checking + vectors)", g)
+    if g.violation:
+        ctx.require_tlc_ok("Sweep_StaticFs.cfg", g)
+    else:
+        sheader = [x for x in g.prints if isinstance(x, dict) and ("world" in x or "routes" in x)]
+        svec = [x for x in g.prints if isinstance(x, dict) and "r" in x]
+        if len(sheader) != 2 or len(svec) < 1500:
+            raise vlib.ToolError("sweep generation incomplete: %d header lines, %d vectors" % (len(sheader), len(svec)))
+        nontrivial_paths(svec, cat, seen)
+        ctx.add_part("expectations sweep", **kinds(svec))
+        sdata = lines_of(sheader) + lines_of(svec)
+        for which, bp in (("", binpath), (" (tokio handlers)", tokio_bin)):
+            s = replay_vectors(ctx, bp, scratch, sheader, svec, "sweep" + which, data=sdata)
+            account(ctx, s, "sweep" + which, "Sweep_StaticFs.cfg")
+            ctx.cov["parts"]["vectors sweep" + which]["requests_via_real_parser"] = s.get("requests_via_real_parser", 0)
+
     ctx.cov["distinct_nontrivial"] = len(seen)
 
     # ---- 4a. binding self-test: a corrupted expectation must be rejected ------------------------------------
@@ -247,17 +302,32 @@ def _run(ctx, thorough, binpath, tokio_bin, scratch, replay):
     recs = None
     for which, bp, nw in (("threaded", binpath, nworlds), ("tokio", tokio_bin, max(6, nworlds // 3))):
         wp = wpath if which == "threaded" else os.path.join(scratch, "worlds-tokio.ndjson")
-        p = run_bin(bp, ["random", str(nw), str(per_world), scratch, wp], timeout=1200)
+        p = run_harness(bp, ["random", str(nw), str(per_world), scratch, wp], timeout=1200)
         if p.returncode != 0:
             raise vlib.ToolError("staticfs random (%s) failed: %s" % (which, p.stderr[-1500:]))
         rs = parse_jsonl(p.stdout)
+        text = p.stdout
         if which == "threaded":
             recs = rs
+            # end to end: a real App on loopback serves one more world (index nw + 1): the real parser, routing and
+            # response writer, a file of several MiB fetched by a client that starts reading late
+            wp2 = os.path.join(scratch, "worlds-e2e.ndjson")
+            p2 = run_harness(bp, ["e2e", scratch, wp2, str(nw + 1)], timeout=1500)
+            e2e = parse_jsonl(p2.stdout)
+            if p2.returncode != 0 or len(e2e) < 40:
+                raise vlib.ToolError("staticfs e2e failed rc=%s (%d answers): %s" % (p2.returncode, len(e2e), p2.stderr[-1500:]))
+            with open(wp, "a") as f:
+                f.write(open(wp2).read())
+            text += p2.stdout
+            ctx.add_part("end to end (real App on loopback)", answers=len(e2e), served_or_redirected=sum(1 for r in e2e if r["st"] in (200, 301)),
+                         late_reader=[{"uri": bytes(r["uri"]).decode("utf-8", "replace"), "late_ms": r["late_ms"], "status": r["st"], "content_id": r["id"]}
+                                      for r in e2e if r.get("late_ms")], no_complete_answer=sum(1 for r in e2e if r["st"] == 0))
+            rs = rs + e2e
         with open(tpath, "w") as f:
-            f.write(p.stdout)
+            f.write(text)
         t = run_tlc("Trace_StaticFs.tla", "Trace_StaticFs.cfg", D, workers=8, env={"TRACE": tpath, "WORLDS": wp},
                     timeout=2400, work_id="c06")
-        ctx.add_tlc("trace validation of %d answers of the %s handlers in %d random worlds" % (len(rs), which, nw), t)
+        ctx.add_tlc("trace validation of %d answers of the %s handlers in %d random worlds%s" % (len(rs), which, nw, " + 1 served by a real App" if which == "threaded" else ""), t)
         ctx.cov["evaluations"] += len(rs)
         ctx.cov["traces_validated_against_impl"] += len(rs)
         ctx.add_part("random " + which, worlds=nw, answers=len(rs), served_or_redirected=sum(1 for r in rs if r["st"] in (200, 301)),
@@ -303,6 +373,8 @@ def _run(ctx, thorough, binpath, tokio_bin, scratch, replay):
         "OsLookup models Linux path resolution for worlds without symbolic links",
         "the harness maps bodies to content ids by exact byte equality; file contents contain every byte value",
         "directory_handler is called with an AppState built from Config::default() with logging off (cache off; in the random runs also with the cache on)",
+        "file contents of prescribed sizes (0, 1, 255, 256, 2^16-1, 2^16, 2^16+1, 3 MiB + 1 bytes) are generated by the harness from the content id (StaticFs!SizeOf)",
+        "requests are produced by the build's real request parser from wire bytes whenever the uri can travel in a request line; the end-to-end leg goes through a real App on loopback (threaded build)",
         "the tokio build of serve_dir / serve_as_file_path / serve_file is driven on a current-thread runtime; the server's directory_handler exists only in the threaded build",
     ]
     return ctx.finish()
